@@ -30,7 +30,7 @@ GHOST_SORTS = {
     "ghost.slen": IntS, "ghost.stopic": arr(IntS, StrS), "ghost.sqos": arr(IntS, IntS),
     "ghost.tasks": IntS,
     # persistence (A-FS): content of the persistence file, whether it exists, number of completed saves, transport connection state
-    "ghost.disk": StrS, "ghost.file_exists": BoolS, "ghost.saves": IntS, "ghost.connected": BoolS, "ghost.saver_pos": IntS,
+    "ghost.disk": StrS, "ghost.file_exists": BoolS, "ghost.saves": IntS, "ghost.connected": BoolS, "ghost.saver_pos": IntS, "ghost.slept": IntS, "ghost.dumped_keys": arr(IntS, BoolS),
 }
 
 
@@ -453,12 +453,21 @@ def sf_is_transport_error(I, fr, o):
     return Sym(models.exc_is_transport_error(o.ref), "bool")
 
 
+def sf_dumped_keys(I, fr):
+    return L.SetVal(gget(I, fr.heap, "ghost.dumped_keys"), TInt)
+
+
+def sf_same_keys(I, fr, sv, d):
+    """the set sv equals the key set of dict d"""
+    return Sym(sv.term == I.d_dom(d, fr.heap), "bool")
+
+
 def sf_set_empty(I, fr, sv):
     return Sym(sv.term == z3.K(sort_of(sv.ktype), z3.BoolVal(False)), "bool")
 
 
 SPEC_GLOBALS = {
-    "set_empty": sf_set_empty,
+    "set_empty": sf_set_empty, "dumped_keys": sf_dumped_keys, "same_keys": sf_same_keys,
     "g": sf_g, "is_transport_error": sf_is_transport_error,
     "inb": sf_inb, "outb": sf_outb, "first_line": sf_first_line, "after_line": sf_after_line, "has_line": sf_has_line,
     "utf8_ok": sf_utf8_ok, "utf8_dec": sf_utf8_dec, "utf8": sf_utf8, "bcat": sf_bcat,
